@@ -7,6 +7,8 @@ Theorems (all over Model/Routing.lean applied to the tables regenerated from /re
   negotiated_optimal        the same through the per-connection version map built from an ApiVersions answer
   route_class               ∀ registered API: the class sendRequest realises = the class Kafka designates
   route_leader              produce/fetch: an accepted request goes to the one broker leading every partition
+  leaderAll_src / leader_loops_agree / route_leader_src   the loops of produce/fetch/rawproduce Broker(), executed symbolically from the
+                            source (Gen.Routing.leaderStep_*), equal the model's leaderAll; route_leader holds of them
   route_leader_mismatch     partitions led by different brokers → the request is refused
   route_listoffsets_leader  a split ListOffsets part goes to its partition's leader
   route_listoffsets_designated … and never to a broker the layout does not designate (unknown leader → control)
@@ -532,5 +534,59 @@ theorem layout_sources :
     allAgree makeLayout_Topic layoutTopic = true ∧ allAgree makePartitions_Partition layoutPartition = true := by decide
 
 end fieldmaps
+
+/-! ## the leader loops regenerated by symbolic execution -/
+
+theorem leaderParts_src (c : Cluster) (t : Topic) (ps : List Int) (cur : Int) :
+    leaderPartsWith leaderStep_produce c t ps cur = leaderParts c t ps cur := by
+  induction ps generalizing cur with
+  | nil => rfl
+  | cons p ps ih =>
+    simp only [leaderPartsWith, leaderParts, leaderStep_produce]
+    cases hp : t.partitions.lookup p with
+    | none => simp [toRouteErr]
+    | some part =>
+      simp only [Option.map_some]
+      cases hb : c.brokers.lookup part.leader with
+      | none => simp [toRouteErr]
+      | some b =>
+        simp only [Option.map_some]
+        by_cases h1 : cur < 0
+        · simp [h1, ih]
+        · by_cases h2 : b.id = cur
+          · simp [h1, h2, ih]
+          · simp [h1, h2, toRouteErr]
+
+/-- **the leader loops of the source are the model's**: folding the symbolically executed iteration of
+produce's `Broker()` over a request equals `leaderAll`, from the initial value the source uses -/
+theorem leaderAll_src (c : Cluster) (tps : List (String × List Int)) (cur : Int) :
+    leaderAllWith leaderTopic_produce leaderStep_produce c tps cur = leaderAll c tps cur := by
+  induction tps generalizing cur with
+  | nil => rfl
+  | cons tp rest ih =>
+    obtain ⟨tn, ps⟩ := tp
+    simp only [leaderAllWith, leaderAll, leaderTopic_produce]
+    cases ht : c.topics.lookup tn with
+    | none => simp [toRouteErr]
+    | some t =>
+      simp only [Option.isSome_some, ↓reduceIte, Option.getD_some, leaderParts_src]
+      cases leaderParts c t ps cur with
+      | error e => rfl
+      | ok cur' => exact ih cur'
+
+/-- fetch and rawproduce use the very same iteration, prologue and initial value -/
+theorem leader_loops_agree :
+    leaderStep_fetch = leaderStep_produce ∧ leaderStep_rawproduce = leaderStep_produce ∧
+    leaderTopic_fetch = leaderTopic_produce ∧ leaderTopic_rawproduce = leaderTopic_produce ∧
+    leaderInit_fetch = leaderInit_produce ∧ leaderInit_rawproduce = leaderInit_produce ∧ leaderInit_produce = -1 :=
+  ⟨rfl, rfl, rfl, rfl, rfl, rfl, rfl⟩
+
+/-- **route_leader over the regenerated loops**: whatever produce / fetch / rawproduce `Broker()` accepts, its
+target leads every requested partition -/
+theorem route_leader_src (c : Cluster) (tps : List (String × List Int)) (b : Int) (hwf : BrokersWF c)
+    (h : leaderAllWith leaderTopic_produce leaderStep_produce c tps leaderInit_produce = .ok b) :
+    ∀ tn ps, (tn, ps) ∈ tps → ∀ p ∈ ps, LedBy c tn p b := by
+  rw [leaderAll_src] at h
+  exact route_leader c tps b hwf h
 
 end KV.Props.C12
